@@ -267,6 +267,7 @@ type sim struct {
 	start    time.Time
 	wake     chan struct{}
 	lockReqs []*lockReq
+	fsLast   map[[2]int]time.Duration // delivery time of the last fast-sync message per (src, dst): ordered stream
 	polkaSplit map[string]int // "height/round" -> bitmask of destinations starved of prevotes (0: none)
 	laggard  *node // fastsync profile: the validator that boots late (set when it boots)
 	mutexes  map[*common.Mutex]*mutexState
